@@ -5,3 +5,5 @@ import MimicProps.C01
 #print axioms MimicProps.C01.closed_forever
 #print axioms MimicProps.C01.failed_handshake_serves_nothing
 #print axioms MimicProps.C01.failed_change_user_closes
+#print axioms MimicProps.C01.code_nothing_after_failed_change_user
+#print axioms MimicProps.C01.code_change_user_exchange
